@@ -170,7 +170,7 @@ class C12(Check):
     lean_targets = ["drv_c12"]
     driver = "drv_c12"
     theorems = ["Pox.C12.port_guards", "Pox.C12.flood_excludes_ingress", "Pox.C12.counters_exact", "Pox.C12.actions_spec",
-                "Pox.C12.checksums_ok", "Pox.C12.rx_spec", "Pox.C12.rx_obj_spec", "Pox.C12.outputs_only", "Pox.C12.actions_total", "Pox.C12.buffers_spec", "Pox.C12.port_mod_spec",
+                "Pox.C12.checksums_ok", "Pox.C12.rx_spec", "Pox.C12.rx_obj_spec", "Pox.C12.rx_accepts_exact", "Pox.C12.outputs_only", "Pox.C12.actions_total", "Pox.C12.buffers_spec", "Pox.C12.port_mod_spec",
                 "Pox.C12.enqueue_d7_defect", "Pox.C12.table_recount_d8_defect", "Pox.C12.vlan_pcp_c121_defect", "Pox.C12.strip_vlan_c122_defect", "Pox.C12.nw_tos_c126_defect"]
     _SW = "pox/datapaths/switch.py"
     anchors = [("pox/datapaths/switch.py", "SoftwareSwitchBase." + n) for n in (
@@ -202,7 +202,10 @@ class C12(Check):
                    "little-endian host (checksum model)"]
     rule = ("case = (3 ports, history of port_mod / link / set_config / flow_mod / packet_out(data, actions) / rx(frame, port) ops); corpus = every one of the 128 "
             "config-bit combinations on each port against FLOOD/ALL/explicit/IN_PORT outputs, every single action and every ordered pair of actions around an output "
-            "on 12 frame shapes; generator = action lists to length 6 over the 12 action types and the virtual ports, random 7-bit configs on all three ports; "
+            "on 12 frame shapes; every combination of the handled config bits and of LINK_DOWN in the port descriptions the switch starts with "
+            "(constructor / add_port / re-added / joining a running switch) with traffic from the first frame; received destinations over the "
+            "reserved block 01:80:c2:00:00:00..0f, its neighbours and every one-bit neighbour of the bridge group address against every "
+            "NO_RECV / NO_RECV_STP combination; generator = action lists to length 6 over the 12 action types and the virtual ports, random 7-bit configs on all three ports; "
             "non-trivial = at least one frame or packet-in leaves the switch and (a rewrite precedes an output or a non-default config bit is set)")
     coverage_cases = 4000
     search_budget = {"quick": 3000, "thorough": 30000}
@@ -295,7 +298,7 @@ class C12(Check):
     def mk_phy(self, d, config=None, state=None):
         of = self.of
         p = of.ofp_phy_port()
-        p.port_no = d["no"]; p.hw_addr = self.EthAddr(self.hw(d["no"])); p.name = "p%d" % d["no"]
+        p.port_no = d["no"]; p.hw_addr = self.EthAddr(bytes.fromhex(d["hw"]) if d.get("hw") else self.hw(d["no"])); p.name = "p%d" % d["no"]
         p.config = d["config"] if config is None else config
         p.state = d["state"] if state is None else state
         p.curr = p.advertised = p.supported = p.peer = of.OFPPF_10MB_HD
@@ -307,7 +310,7 @@ class C12(Check):
             ps = self.initports(case)
             ctor = [self.mk_phy(d) for d in ps if d.get("via", "ctor") == "ctor"]
             if case.get("ports_as") == "tuple": ctor = tuple(ctor)
-            node = self.swnet.SwitchNode(dpid=1, ports=ctor, max_buffers=case.get("bufs", 4096), miss_send_len=128)
+            node = self.swnet.SwitchNode(dpid=1, ports=ctor, max_buffers=case.get("bufs", 4096), miss_send_len=case.get("miss0", 128))
             for d in ps:
                 via = d.get("via", "ctor")
                 if via == "ctor": continue
@@ -317,11 +320,11 @@ class C12(Check):
                 node.sw.add_port(self.mk_phy(d))
             node.drain()
         elif case.get("portnos"):
-            node = self.swnet.SwitchNode(dpid=1, ports=0, max_buffers=case.get("bufs", 4096), miss_send_len=128)
+            node = self.swnet.SwitchNode(dpid=1, ports=0, max_buffers=case.get("bufs", 4096), miss_send_len=case.get("miss0", 128))
             for no in case["portnos"]: node.sw.add_port(node.sw.generate_port(no, name="p%d" % no))
             node.drain()
         else:
-            node = self.swnet.SwitchNode(dpid=1, ports=case.get("nports", NPORTS), max_buffers=case.get("bufs", 4096), miss_send_len=128)
+            node = self.swnet.SwitchNode(dpid=1, ports=case.get("nports", NPORTS), max_buffers=case.get("bufs", 4096), miss_send_len=case.get("miss0", 128))
         sw = node.sw
         log = []
         sw.addListener(self.DpPacketOut, lambda e: log.append({"k": "frame", "port": e.port.port_no, "data": e.packet.pack().hex()}))
@@ -374,7 +377,24 @@ class C12(Check):
             if k == "features": return of.ofp_features_request()
             raise ValueError(k)
         outs, cfgs, exc, partial = [], [], None, None
+        twin = None
+        if case.get("twin"):
+            # HARDENING items 1, 10: a SECOND switch in the same process, same port numbers with every handled bit the other way
+            # round, sees the same traffic between any two operations; what it does is nobody's business here, and nothing
+            # it does may show on the switch under test
+            nos = self.portnos(case); base = dict((d["no"], d) for d in case.get("initports") or [])
+            twin = self.swnet.SwitchNode(dpid=2, ports=[self.mk_phy({"no": n, "config": (base.get(n, {}).get("config", PC_NO_STP) ^ HANDLED) & 0x7f,
+                                                                     "state": base.get(n, {}).get("state", 0) ^ 1}) for n in nos], max_buffers=3, miss_send_len=7)
+        def twin_do(op):
+            try:
+                if op["op"] == "rx": twin.rx(bytes.fromhex(op["data"]), op["port"])
+                elif op["op"] in ("portmod", "flow", "setconfig", "stats", "features") or (op["op"] == "pktout" and "data" in op):
+                    o2 = dict(op, config=~op["config"] & 0xffffffff) if op["op"] == "portmod" else op
+                    twin.send(mk_msg(o2)); prio[0] += 1 if op["op"] == "flow" else 0
+            except Exception: pass
         for op in case["ops"]:
+            if twin is not None:
+                for o2 in (op["ops"] if op["op"] == "batch" else [op]): twin_do(o2)
             del log[:]; del raised[:]
             cfgs.append(cfg())
             k = op["op"]; st = "ok"
@@ -424,10 +444,10 @@ class C12(Check):
     def model_request(self, case):
         if case.get("oracle_only"): return None
         if case.get("initports"):
-            ports = [{"no": d["no"], "hw": self.hw(d["no"]).hex(), "config": d["config"], "state": d["state"]} for d in self.initports(case)]
+            ports = [{"no": d["no"], "hw": d.get("hw") or self.hw(d["no"]).hex(), "config": d["config"], "state": d["state"]} for d in self.initports(case)]
         else:
             ports = [{"no": i, "hw": self.hw(i).hex(), "config": PC_NO_STP, "state": 0} for i in self.portnos(case)]
-        return {"var": dict(self.variant), "ports": ports, "bufs": case.get("bufs", 4096), "ops": self._flat(case)[0]}
+        return {"var": dict(self.variant), "ports": ports, "bufs": case.get("bufs", 4096), "miss": case.get("miss0", 128), "ops": self._flat(case)[0]}
 
     @staticmethod
     def _by_channel(outs):
@@ -495,7 +515,7 @@ class C12(Check):
         if k == "portmod":
             cur = dict((n, (c, s)) for n, c, s in cfg)
             if op["port"] not in cur: return [{"k": "error", "type": 4, "code": 0}], cfg, None
-            if bytes.fromhex(op["hw"]) != self.hw(op["port"]): return [{"k": "error", "type": 4, "code": 1}], cfg, None
+            if bytes.fromhex(op["hw"]) != bytes.fromhex(st["hw"].get(op["port"], self.hw(op["port"]).hex())): return [{"k": "error", "type": 4, "code": 1}], cfg, None
             c, s = cur[op["port"]]
             m = op["mask"] & HANDLED
             c2 = (c & ~m) | (op["config"] & m)
@@ -515,6 +535,7 @@ class C12(Check):
         if k == "link":
             return [], [(n, c, (s | 1) if op["down"] else (s & ~1)) if n == op["port"] else (n, c, s) for n, c, s in cfg], None
         if k == "addport":                                     # announced to the controller as it was handed in; its rules apply from now on
+            if op.get("hw"): st["hw"][op["no"]] = op["hw"]
             return [{"k": "port_status", "port": op["no"], "config": op["config"], "state": op["state"]}], cfg + [(op["no"], op["config"], op["state"])], None
         if k == "stats":
             sel = [n for n, c, s in cfg if op.get("port") is None or n == op["port"]]
@@ -571,7 +592,8 @@ class C12(Check):
                 c, s = have[d["no"]]
                 if c != d["config"] or (d["state"] & 1 and not s & 1):
                     return "port %d enters the switch (%s) with config %#x state %#x and is held with config %#x state %#x" % (d["no"], d.get("via", "ctor"), d["config"], d["state"], c, s)
-        st = {"rules": [], "miss": 128, "flags": 0, "free": case.get("bufs", 4096), "bufstore": [], "etx": {}, "erx": {}}
+        st = {"rules": [], "miss": case.get("miss0", 128), "flags": 0, "free": case.get("bufs", 4096), "bufstore": [], "etx": {}, "erx": {},
+              "hw": dict((d["no"], d["hw"]) for d in case.get("initports") or [] if d.get("hw"))}
         tx = {}; rx = {}
         l4rw = any(a["a"] in ("set_nw_src", "set_nw_dst", "set_tp_src", "set_tp_dst") for o2 in flat if "acts" in o2 for a in o2["acts"])
         for i, (op, got) in enumerate(zip(case["ops"], obs["outs"])):
@@ -741,6 +763,9 @@ class C12(Check):
 
     def shrink_candidates(self, case):
         ops = case["ops"]
+        for flag in ("twin", "miss0", "ports_as"):
+            if flag in case:
+                c = copy.deepcopy(case); del c[flag]; yield c
         for i, d in enumerate(case.get("initports") or []):          # one port back to the default description / to the constructor
             if d["config"] != PC_NO_STP or d["state"]:
                 c = copy.deepcopy(case); c["initports"][i].update(config=PC_NO_STP, state=0); yield c
@@ -1167,6 +1192,21 @@ class C12(Check):
             cases.append({"nports": 4, "witness": name, "ops": setup + [{"op": "pktout", "in_port": ing, "data": small, "acts": acts}], "wf": True, "canon": True})
         cases.append({"nports": 4, "witness": "strip_vlan_c122_defect", "canon": True,
                       "ops": setup + [{"op": "pktout", "in_port": 1, "data": "66778899aabb00112233445581000005", "acts": [{"a": "strip_vlan"}, {"a": "output", "port": 4, "max_len": 0}]}]})
+        # (x) HARDENING item 3 (falsy is not None): a tag in front of NOTHING, or in front of bytes that are not what the inner ethertype
+        #     promises (the parser hangs an unparsed — falsy — header object behind the tag, which packs to its raw bytes): IPv4 with a
+        #     wrong version nibble / IHL < 5 / fewer than 20 octets, a truncated ARP body, a single octet — single and double tagged —
+        #     against strip_vlan and the set_vlan actions, by packet-out and through a flow entry
+        inner = [(0x88b5, b""), (0x88b5, b"\0"), (0x0800, b""), (0x0800, bytes([0x55]) + bytes(range(1, 24))), (0x0800, bytes([0x44]) + bytes(range(1, 24))),
+                 (0x0800, bytes([0x45]) + bytes(range(1, 10))), (0x0800, bytes([0x45, 0, 0, 10]) + bytes(range(4, 24))), (0x0806, bytes([0, 1, 8, 0, 6, 4, 0, 1, 9, 9])),
+                 (0x0806, b""), (0x8035, bytes(3))]
+        hdr = bytes.fromhex("66778899aabb001122334455")
+        for et, body in inner:
+            for tags in ((0x2005,), (0, ), (0xe00a, 0x0007)):
+                fr = hdr + b"".join(struct.pack("!HH", 0x8100, t) for t in tags) + struct.pack("!H", et) + body
+                for acts in ([{"a": "strip_vlan"}, out1(2)], [out1(2), {"a": "strip_vlan"}, out1(3), {"a": "set_vlan_vid", "v": 5}, out1(P_FLOOD), {"a": "strip_vlan"}, {"a": "strip_vlan"}, out1(P_IN_PORT)],
+                             [{"a": "set_vlan_pcp", "v": 3}, out1(2), {"a": "strip_vlan"}, out1(3)]):
+                    cases.append({"ops": [{"op": "pktout", "in_port": 1, "data": fr.hex(), "acts": acts}], "canon": True, "why": "tag before %#x + %d octets" % (et, len(body))})
+                    cases.append({"ops": [{"op": "flow", "in_port": None, "acts": acts}, {"op": "rx", "port": 1, "data": fr.hex()}], "canon": True, "why": "tag before %#x + %d octets" % (et, len(body))})
         cases += self.corpus_initports(tcp, tcpv, udp, stp)
         cases += self.corpus_dst_sweep(tcp, udp)
         return cases
@@ -1198,6 +1238,7 @@ class C12(Check):
                                {"op": "portmod", "port": target, "hw": self.hw(target).hex(), "config": ~c & PC_PORT_DOWN, "mask": PC_PORT_DOWN}, po(other, tcp),
                                {"op": "link", "port": target, "down": False}, po(other, udp), {"op": "features"}, {"op": "stats", "port": None}]
                         cases.append({"initports": init, "ops": ops, "wf": True, "canon": True, "why": "initial port description %s config %#x state %d" % (via, c, s)})
+                        if k % 16 == 5: cases[-1]["twin"] = True
         # all three ports with descriptions of their own (tuple instead of list for the constructor), other port numbers, and a
         # port that joins the running switch between two uses of the same frame (oracle only: the model's port table is fixed)
         import random
@@ -1207,10 +1248,19 @@ class C12(Check):
             init = [{"no": n, "config": rng.randint(0, 127), "state": rng.randint(0, 1), "via": rng.choice(["ctor", "ctor", "add", "readd"])} for n in nos]
             outs = [out1(P_FLOOD)] + [out1(n) for n in nos] + [out1(P_ALL), out1(P_IN_PORT)]
             ops = [{"op": "pktout", "in_port": ing, "data": tcp, "acts": outs} for ing in nos + [P_NONE]]
+            if i % 4 == 0:                          # hardware addresses of their own: a port_mod must name the port's address, not the one
+                for d in init:                      # the switch would have generated, nor another port's
+                    d["hw"] = rng.choice(["0a0b0c0d0e%02x" % d["no"] if d["no"] < 256 else "0a0b0c0d0e0f", "ffffffffffff", "000000000000", "0180c2000000", self.hw(d["no"] + 1).hex()])
+                for d in init:
+                    for hwx in (self.hw(d["no"]).hex(), init[0]["hw"], d["hw"]):
+                        ops.append({"op": "portmod", "port": d["no"], "hw": hwx, "config": ~d["config"] & 0x7f, "mask": rng.choice([0x7f, PC_PORT_DOWN | PC_NO_FWD, PC_NO_RECV | PC_NO_FLOOD])})
+                        ops.append({"op": "pktout", "in_port": P_NONE, "data": udp, "acts": outs})
             ops += [{"op": "flow", "in_port": None, "acts": [out1(P_ALL)]}] + [{"op": "rx", "port": n, "data": fr} for n in nos for fr in (udp, stp)] + [{"op": "features"}, {"op": "stats", "port": None}]
             cases.append({"initports": init, "ports_as": "tuple" if i % 2 else "list", "ops": ops, "wf": True, "canon": True})
+            if i % 5 == 0: cases[-1]["twin"] = True
+            if i % 6 == 0: cases[-1]["miss0"] = (0, 14, 20, 65535)[i // 6 % 4]
         for combo in range(128):
-            c, s = combo & 0x7f, combo >> 3 & 1
+            c = sum(b for i, b in enumerate(bits6) if combo >> i & 1) | (PC_NO_STP if combo % 3 else 0); s = combo >> 6
             new = {"op": "addport", "no": 4, "config": c, "state": s}
             o4 = [out1(P_FLOOD), out1(4), out1(P_ALL), out1(P_IN_PORT)]
             ops = [{"op": "pktout", "in_port": 1, "data": tcp, "acts": o4}, {"op": "flow", "in_port": None, "acts": [out1(P_FLOOD)]}, {"op": "rx", "port": 2, "data": udp},
@@ -1331,6 +1381,8 @@ class C12(Check):
                     while lead < len(case["ops"]) and case["ops"][lead]["op"] == "portmod": lead += 1
                     case["ops"] = case["ops"][lead:] or case["ops"]
             if rng.random() < 0.15: case["bufs"] = rng.choice([0, 1, 2, 3])
+            if rgen.random() < 0.12: case["miss0"] = rgen.choice([0, 1, 14, 15, 127, 129, 65535])
+            if rgen.random() < 0.1: case["twin"] = True
             if can: case["canon"] = True
             if wf and not wild: case["wf"] = True
             yield case
